@@ -66,7 +66,7 @@ func (f *Subtract) Call(s *slip.Scope, args slip.List, depth int) (dif slip.Obje
 				case slip.Complex:
 					dif = slip.Complex(-complex128(td))
 				}
-				return
+				return canonicalNumber(dif)
 			}
 			continue
 		}
